@@ -552,7 +552,16 @@ def _centre_rule(ctx, prog, R):
                     if isinstance(t_, ast.Name) and t_.id in fn.params and isinstance(v_, ast.Name) and v_.id in al:
                         sn_ = cfg_.node_of(s_)
                         for c2, tg2 in prog.calls_in(fn):
-                            if R.incumbent_update in tg2 and c2.args and canon(c2.args[0]) == canon(centre):
+                            # the point argument of the incumbent update, positional or by keyword
+                            pt_ = None
+                            if R.incumbent_update in tg2:
+                                try:
+                                    b2_ = bind_args(R.incumbent_update, c2)
+                                    pn_ = [p_ for p_ in R.incumbent_update.params if p_ != "self"]
+                                    pt_ = b2_.get(pn_[0]) if pn_ else None
+                                except Exception:
+                                    pt_ = c2.args[0] if c2.args else None
+                            if pt_ is not None and canon(pt_) == canon(centre):
                                 cn_ = cfg_.node_of(c2)
                                 if sn_ is not None and cn_ is not None and cfg_.dominates(cn_.id, sn_.id):
                                     moved_to = True
